@@ -96,8 +96,19 @@ func statEncoders(s *types.Stat) map[string]func() ([]byte, error) {
 			return buf[:n], nil
 		}
 	}
+	big := func(f func([]byte) (int, error)) func() ([]byte, error) {
+		return func() ([]byte, error) {
+			buf := bytes.Repeat([]byte{0xee}, s.SizeVT()+37)
+			n, err := f(buf)
+			if err != nil {
+				return nil, err
+			}
+			return buf[:n], nil
+		}
+	}
 	return map[string]func() ([]byte, error){"MarshalVT": s.MarshalVT, "MarshalVTStrict": s.MarshalVTStrict, "Marshal": s.Marshal,
-		"MarshalToVT": to(s.MarshalToVT), "MarshalToVTStrict": to(s.MarshalToVTStrict)}
+		"MarshalToVT": to(s.MarshalToVT), "MarshalToVTStrict": to(s.MarshalToVTStrict),
+		"MarshalToVT(larger buffer)": big(s.MarshalToVT), "MarshalToVTStrict(larger buffer)": big(s.MarshalToVTStrict)}
 }
 
 func packetEncoders(p *types.Packet) map[string]func() ([]byte, error) {
@@ -111,8 +122,21 @@ func packetEncoders(p *types.Packet) map[string]func() ([]byte, error) {
 			return buf[:n], nil
 		}
 	}
+	// the same entry points handed a scratch buffer larger than the encoding (a pooled or re-used buffer): the first n
+	// bytes are the encoding
+	big := func(f func([]byte) (int, error)) func() ([]byte, error) {
+		return func() ([]byte, error) {
+			buf := bytes.Repeat([]byte{0xee}, p.Size()+37)
+			n, err := f(buf)
+			if err != nil {
+				return nil, err
+			}
+			return buf[:n], nil
+		}
+	}
 	return map[string]func() ([]byte, error){"MarshalVT": p.MarshalVT, "MarshalVTStrict": p.MarshalVTStrict, "Marshal": p.Marshal,
-		"MarshalTo": to(p.MarshalTo), "MarshalToVT": to(p.MarshalToVT), "MarshalToVTStrict": to(p.MarshalToVTStrict)}
+		"MarshalTo": to(p.MarshalTo), "MarshalToVT": to(p.MarshalToVT), "MarshalToVTStrict": to(p.MarshalToVTStrict),
+		"MarshalTo(larger buffer)": big(p.MarshalTo), "MarshalToVT(larger buffer)": big(p.MarshalToVT), "MarshalToVTStrict(larger buffer)": big(p.MarshalToVTStrict)}
 }
 
 // encodeAll runs every encoder; all must succeed without panicking, produce SizeVT bytes, and decode to want.
@@ -687,6 +711,57 @@ func reuse(frames [][]byte) (msg string) {
 	return ""
 }
 
+// handover: the first k packets are read through one stream object, the rest through a second stream created on the
+// SAME underlying reader (a second transfer on one connection, another protocol continuing after FIN): a stream takes
+// from the reader what it returns and nothing more.
+func handover(pkts []*types.Packet, wire []byte, k int, chunk int) (msg string) {
+	defer func() {
+		if r := recover(); r != nil {
+			msg = fmt.Sprintf("panic: %v", r)
+		}
+	}()
+	var rd io.Reader = bytes.NewReader(wire)
+	if chunk > 0 {
+		rd = &chunkReader{data: wire, n: chunk}
+	}
+	first := util.NewProtoStream(context.Background(), rd, nil)
+	for i := 0; i < k; i++ {
+		var got types.Packet
+		if err := first.RecvMsg(&got); err != nil || !pktEq(&got, pkts[i]) {
+			return fmt.Sprintf("first stream, packet #%d: %v", i, err)
+		}
+	}
+	second := util.NewProtoStream(context.Background(), rd, nil)
+	for i := k; i < len(pkts); i++ {
+		var got types.Packet
+		if err := second.RecvMsg(&got); err != nil {
+			return fmt.Sprintf("a second stream on the same reader, after the first one returned %d packets: packet #%d: %v", k, i, err)
+		}
+		if !pktEq(&got, pkts[i]) {
+			return fmt.Sprintf("a second stream on the same reader reads packet #%d as something else", i)
+		}
+	}
+	return ""
+}
+
+// chunkReader hands out at most n bytes per call.
+type chunkReader struct {
+	data []byte
+	n    int
+}
+
+func (r *chunkReader) Read(p []byte) (int, error) {
+	if len(r.data) == 0 {
+		return 0, io.EOF
+	}
+	if len(p) > r.n {
+		p = p[:r.n]
+	}
+	k := copy(p, r.data)
+	r.data = r.data[k:]
+	return k, nil
+}
+
 // resend: one packet object is sent, changed and sent again (and again); what is read back is each value as it was sent.
 func resend(sizes []int) (msg string) {
 	defer func() {
@@ -801,6 +876,14 @@ func runC20(r *evid.Run) {
 					}
 					if near || c%1999 == 0 {
 						cuts[c] = true
+					}
+				}
+				for k := 0; k <= len(ps); k++ {
+					for _, chunk := range []int{0, 1, 7, 4096, 1 << 20} {
+						if m := handover(ps, wire, k, chunk); m != "" {
+							r.Violate("handover:"+firstWord(m), fmt.Sprintf("stream of %d packets, reader delivering %d bytes per call: %s", len(ps), chunk, m), c20Case{Kind: "handover", Pkts: encAll(ps), Cuts: []int{k, chunk}})
+						}
+						cnt++
 					}
 				}
 				for c := range cuts {
@@ -1263,7 +1346,7 @@ func replayC20(raw json.RawMessage) string {
 		return roundTripPacket(&p)
 	case "resend":
 		return resend(c.Cuts)
-	case "truncated", "transient":
+	case "truncated", "transient", "handover":
 		var ps []*types.Packet
 		for _, b := range c.Pkts {
 			p := &types.Packet{}
@@ -1284,6 +1367,9 @@ func replayC20(raw json.RawMessage) string {
 		}
 		if c.Kind == "transient" {
 			return transient(ps, w.Bytes(), c.Cuts[0])
+		}
+		if c.Kind == "handover" && len(c.Cuts) == 2 {
+			return handover(ps, w.Bytes(), c.Cuts[0], c.Cuts[1])
 		}
 		if m := truncation(ps, w.Bytes(), ends, c.Cuts[0], true); m != "" {
 			return m
